@@ -533,13 +533,21 @@ func (j *jsonReader) DateTime(tag int) (time.Time, error) {
 			if epoch < 0 {
 				return time.Time{}, Errorf("date-time cannot be negative")
 			}
-			return time.Unix(epoch, 0).UTC(), j.Next()
+			t := time.Unix(epoch, 0).UTC()
+			if err := checkTextDateTime(t); err != nil {
+				return time.Time{}, err
+			}
+			return t, j.Next()
 		}
 		t, err := time.Parse(time.RFC3339, val)
 		if err != nil {
 			return t, err
 		}
-		return t.Local(), j.Next()
+		t = t.Local()
+		if err := checkTextDateTime(t); err != nil {
+			return time.Time{}, err
+		}
+		return t, j.Next()
 	default:
 		return time.Time{}, Errorf("invalid date-time value: %q", val)
 	}
